@@ -201,6 +201,25 @@ def build_compiler(defs=(GUARD,)):
     if rc != 0:
         raise BuildError("link failed:\n" + err[-3000:])
     _compiler_cache[key] = exe
+    _compiler_objs[key] = objs
+    return exe
+
+
+_compiler_objs = {}
+
+
+def build_wrapped_compiler(hook_c, wrapped, defs=(GUARD,)):
+    """The same compiler, re-linked with `-Wl,--wrap=<f>` for each function in `wrapped`
+    and the hook file (under /verif/harness) that defines __wrap_<f>: lets a check observe
+    the arguments and results of an internal function of the REAL compiler."""
+    build_compiler(defs)
+    objs = _compiler_objs[tuple(defs)]
+    d = scratch("ccw")
+    hobj = cc_objs([os.path.join(VERIF, "harness", hook_c)], d + "/hobj", defs)
+    exe = d + "/aldor-wrapped"
+    rc, out, err = run(["gcc", "-o", exe] + objs + hobj + ["-lm"] + ["-Wl,--wrap=" + w for w in wrapped], timeout=300)
+    if rc != 0:
+        raise BuildError("link of wrapped compiler failed:\n" + err[-3000:])
     return exe
 
 
